@@ -108,19 +108,89 @@ PUSH_OR_WB = re.compile(r"^(storage::rdb::RdbWriter::<W>::write_byte|std::vec::V
 
 
 def writer_opcode_table(ctx, fn):
-    """variant -> opcode written first in that variant's arm (per Value switch in fn)"""
+    """variant -> opcode of that variant.  Two shapes: the opcode is written first in the variant's
+    arm of the Value match, or a separate match selects the opcode (`let op = match value {..}`)
+    and one write_byte(op) follows.  Returns (body, [(switch_bb, {variant: (opcode, bb)})]) with the
+    merged table first."""
     b = ctx.prog.need(fn)
     tabs = []
+    merged = {}
     for (i, names, other, p) in discr_switch_on(ctx, b, VALUE):
         tab = {}
         for v, tgt in names.items():
             reg = cfg.edge_dom_set(b, i, tgt)
             op, at = first_opcode_in(ctx, b, reg, PUSH_OR_WB)
+            if op is None:
+                # `match value { Value::X => RdbOpcode::X, .. }` followed by one `write_byte(op as u8)`
+                for x in sorted(reg):
+                    for st in b.stmts(x):
+                        if st["k"] == "=" and st["r"]["k"] == "agg" and st["r"]["a"].startswith("storage::rdb::RdbOpcode::"):
+                            try:
+                                op, at = ctx.prog.variant_discr("storage::rdb::RdbOpcode", st["r"]["a"].rsplit("::", 1)[-1]), x
+                            except Exception:
+                                pass
+            if op is None:
+                # a byte constant assigned in the arm to a local that a write_byte takes later
+                for x in sorted(reg):
+                    for st in b.stmts(x):
+                        if st["k"] == "=" and not st["l"]["p"] and b.locals[st["l"]["l"]] == "u8":
+                            val = byte_const(b, x, {"cp": {"l": st["l"]["l"], "p": []}})
+                            if val is not None and _flows_to_write_byte(b, st["l"]["l"]):
+                                op, at = val, x
             if op is not None:
                 tab[v] = (op, at)
         if tab:
             tabs.append((i, tab))
+            for v, oa in tab.items():
+                merged.setdefault(v, oa)
+    if merged:
+        tabs.insert(0, (tabs[0][0], merged))
     return b, tabs
+
+
+def _flows_to_write_byte(b, l, depth=6):
+    seen = set(); st_ = [l]
+    while st_ and depth:
+        depth -= 1
+        cur = st_.pop()
+        if cur in seen:
+            continue
+        seen.add(cur)
+        for i, t in b.calls():
+            if PUSH_OR_WB.search(t["f"] or "") and len(t["a"]) > 1 and op_local(t["a"][1]) == cur:
+                return True
+        for bb in b.bbs:
+            for st in bb["s"]:
+                if st["k"] == "=" and not st["l"]["p"] and st["r"]["k"] in ("use", "cast") and op_local(st["r"].get("o")) == cur:
+                    st_.append(st["l"]["l"])
+    return False
+
+
+def payload_switch(ctx, b, prims, prefix):
+    """the Value match whose arms write the payload (most write primitives inside its arms)"""
+    best = None
+    for sw in discr_switch_on(ctx, b, VALUE):
+        i, names, other, p = sw
+        n = 0
+        for v, tgt in names.items():
+            for x in cfg.edge_dom_set(b, i, tgt):
+                t = b.term(x)
+                if t["k"] == "call" and callee(t).startswith(prefix) and prims.get(callee(t)[len(prefix):]):
+                    n += 1
+        if best is None or n > best[0]:
+            best = (n, sw)
+    return best[1] if best else None
+
+
+def same_shape_modulo_key(wseq, rseq):
+    """the key string may be written/read inside the variant's arm or once before the match"""
+    if wseq == rseq:
+        return True
+    if rseq and rseq[0] == "string" and wseq == rseq[1:]:
+        return True
+    if wseq and wseq[0] == "string" and wseq[1:] == rseq:
+        return True
+    return False
 
 
 def reader_opcode_arms(ctx, fn=None):
@@ -325,6 +395,9 @@ PRIM_W = {"write_byte": "byte", "write_string": "string", "write_length": "lengt
 PRIM_R = {"read_byte": "byte", "read_string": "string", "read_length": "length", "read_f64": "f64", "read_u64_le": "u64", "read_u32_be": "u32", "read_u32_le": "u32le"}
 
 
+_PROG = None
+
+
 def shape_of(b, region, prims, prefix):
     """(straight-line primitive sequence, set of per-loop primitive sequences) inside region, in
     reverse post-order; loops are natural loops inside the region"""
@@ -343,6 +416,21 @@ def shape_of(b, region, prims, prefix):
         t = b.term(x)
         if t["k"] != "call":
             continue
+        # a closure handed to an iterator adaptor (`(0..n).map(|_| self.read_string())`) is a loop
+        # body: its primitives form one per-element sequence
+        for ci, cl in enumerate(t.get("clos") or []):
+            cb = _PROG.bodies.get(cl) if _PROG is not None else None
+            if cb is None:
+                continue
+            cseq = []
+            for y in cfg.rpo(cb):
+                ty = cb.term(y)
+                if ty["k"] == "call" and callee(ty).startswith(prefix):
+                    kk = prims.get(callee(ty)[len(prefix):])
+                    if kk is not None:
+                        cseq.append(kk)
+            if cseq and ("clos", cl) not in loops:
+                loops[("clos", cl)] = cseq
         c = callee(t)
         if not c.startswith(prefix):
             continue
@@ -357,13 +445,18 @@ def shape_of(b, region, prims, prefix):
 
 
 def rule_shape(ctx, R):
+    global _PROG
+    _PROG = ctx.prog
     wb = ctx.prog.need(W + "write_key_value")
-    sw = discr_switch_on(ctx, wb, VALUE)
-    if not sw:
+    sw0 = payload_switch(ctx, wb, PRIM_W, W)
+    if not sw0:
         R.broken.append("Value switch not found in write_key_value"); return
-    i, names, other, p = sw[0]
+    i, names, other, p = sw0
     rb, arms = reader_opcode_arms(ctx)
-    wt = writer_opcode_table(ctx, W + "write_key_value")[1][0][1]
+    wtabs = writer_opcode_table(ctx, W + "write_key_value")[1]
+    if not wtabs:
+        R.broken.append("writer opcode table not found"); return
+    wt = wtabs[0][1]
     n = 0
     for v in VARIANTS:
         if v not in names or v not in wt:
@@ -387,7 +480,7 @@ def rule_shape(ctx, R):
             if v == "List" and not all(l in rloops for l in wloops):
                 R.finding(wb.fn, "shape:%s:loop-mismatch" % v, "list elements are written as %s per element but no reader loop reads that" % (wloops,), wb.loc(names[v]))
             continue
-        if wseq2 != rseq or wloops != rloops:
+        if not same_shape_modulo_key(wseq2, rseq) or wloops != rloops:
             R.finding(wb.fn, "shape:%s:mismatch" % v,
                       "Value::%s is written as %s + loops %s but read as %s + loops %s: the record cannot be read back" % (v, wseq2, wloops, rseq, rloops), wb.loc(names[v]))
     R.floor("variants_compared", n)
@@ -784,9 +877,28 @@ def rule_load_err(ctx, R):
         if callee(t) in api:
             rs = shared.result_switch(b, i)
             R.inst(b.fn, "store:" + callee(t).split("::")[-1], None)
-            if rs is None:
+            returned = (t["d"]["l"] == 0 and not t["d"]["p"]) or _flows_to_return(b, t["d"]["l"])
+            if rs is None and not returned:
                 R.finding(b.fn, "store-result-dropped:" + callee(t).split("::")[-1],
                           "the result of %s is discarded while loading (line %d): entries that fail to load are silently lost" % (callee(t).split("::")[-1], b.bb_line(i)), b.loc(i))
+
+
+def _flows_to_return(b, l, depth=6):
+    """is local l (a whole Result) copied/moved into _0?"""
+    seen = set(); st_ = [l]
+    while st_ and depth:
+        depth -= 1
+        cur = st_.pop()
+        if cur in seen:
+            continue
+        seen.add(cur)
+        for bb in b.bbs:
+            for st in bb["s"]:
+                if st["k"] == "=" and not st["l"]["p"] and st["r"]["k"] == "use" and op_local(st["r"]["o"]) == cur and not op_place(st["r"]["o"])["p"]:
+                    if st["l"]["l"] == 0:
+                        return True
+                    st_.append(st["l"]["l"])
+    return False
 
 
 def rule_snap_one(ctx, R):
@@ -868,15 +980,20 @@ def rule_deadline_clock(ctx, R):
 
 
 def rule_shape_siblings(ctx, R):
+    global _PROG
+    _PROG = ctx.prog
     """every other function of the reader that dispatches on the value-type byte (a skipper, a
     validator, a second loader) consumes, per type, exactly what the writer emits for that type:
     same straight-line primitives, same per-element loop bodies (a hash is count x TWO strings)"""
     wb = ctx.prog.need(W + "write_key_value")
-    sw = discr_switch_on(ctx, wb, VALUE)
-    if not sw:
+    sw0 = payload_switch(ctx, wb, PRIM_W, W)
+    if not sw0:
         R.broken.append("Value switch not found in write_key_value"); return
-    i, names, other, p = sw[0]
-    wt = writer_opcode_table(ctx, W + "write_key_value")[1][0][1]
+    i, names, other, p = sw0
+    wtabs = writer_opcode_table(ctx, W + "write_key_value")[1]
+    if not wtabs:
+        R.broken.append("writer opcode table not found"); return
+    wt = wtabs[0][1]
     type_opcodes = {wt[v][0]: v for v in VARIANTS if v in wt}
     main = RD + "read_key_value_with_type"
     n = 0; nf = 0
